@@ -32,6 +32,7 @@ import (
 	"strings"
 
 	"github.com/hedzr/logg/slog"
+	errorsv3 "gopkg.in/hedzr/errors.v3"
 )
 
 func init() {
@@ -58,6 +59,7 @@ type c14x struct {
 	sl  *logslog.Logger
 	ll  *log.Logger
 	ctx context.Context
+	v   any       // the attribute value the call sites pass: 1, or an error value that carries a stack
 	u0  c14site   // position of the issuing statement
 	cal []c14site // calibration: the frames from the closure upwards
 }
@@ -131,7 +133,8 @@ type c14Case struct {
 	API      string  `json:"skipapi"` // none | SetSkip | WithSkip
 	Skip     int     `json:"skip"`
 	Depth    int     `json:"wrappers"`
-	Observed int     `json:"observed_offset"` // k: k frames above the issuing statement; -1 elsewhere; -2 no record
+	History  string  `json:"history,omitempty"` // "" first record of the statement | error-attr: same statement again, the attribute is a stack-carrying error | after-error-attr: same statement once more
+	Observed int     `json:"observed_offset"`   // k: k frames above the issuing statement; -1 elsewhere; -2 no record
 	Got      c14site `json:"got"`
 	Want     c14site `json:"want"` // file already passed through slog.Safety; function shortened in colour mode
 	Bad      string  `json:"bad,omitempty"`
@@ -236,6 +239,13 @@ func c14Cell(res *c14Result, snap *slog.VerifRegistry, cal [][]c14site, kind, fo
 		case "WithSkip":
 			e = x.l.WithSkip(skip)
 			x.l = e
+		case "WithSkipSiblings": // one parent hands out a logger for every wrapper depth, all stay in use
+			p := x.l
+			for s := 0; s <= c14MaxDepth; s++ {
+				if c := p.WithSkip(s); s == skip {
+					e, x.l = c, c
+				}
+			}
 		}
 	case "default":
 		switch api {
@@ -243,6 +253,14 @@ func c14Cell(res *c14Result, snap *slog.VerifRegistry, cal [][]c14site, kind, fo
 			slog.SetSkip(skip)
 		case "WithSkip":
 			slog.SetDefault(slog.WithSkip(skip)) // the default logger is now an *Entry (second arm of logctxctx)
+		case "WithSkipSiblings":
+			var mine *slog.Entry
+			for s := 0; s <= c14MaxDepth; s++ {
+				if c := slog.WithSkip(s); s == skip {
+					mine = c
+				}
+			}
+			slog.SetDefault(mine)
 		}
 		e = slog.VerifEntryOf(slog.Default())
 		x.l = slog.Default()
@@ -268,52 +286,72 @@ func c14Cell(res *c14Result, snap *slog.VerifRegistry, cal [][]c14site, kind, fo
 			if d < skip {
 				continue
 			}
-			events, x.u0 = nil, c14site{}
-			c14drive(d, x, c.F)
-			cs := c14Case{Build: res.Build, Recv: c.Recv, Name: c.Name, Via: c.Via, Format: format, Kind: kind, API: api, Skip: skip, Depth: d}
-			// the frames the harness knows: 0 = the issuing statement, 1..d the wrappers, d+1 the driver
-			known := append([]c14site{x.u0}, cal[d][1:]...)
-			cs.Want = c14Rendered(format, known[skip])
-			var writes [][]byte
-			for _, ev := range events {
-				if ev.Kind == "write" {
-					writes = append(writes, ev.Payload)
+			// the statement is executed three times on the same (pooled) print context: plain, with an error
+			// value that carries its own stack (the formatter resolves that frame too), and plain again
+			for _, h := range []string{"", "error-attr", "after-error-attr"} {
+				x.v = 1
+				if h == "error-attr" {
+					x.v = c14StackErr
 				}
+				cs := c14Observe(res, x, cal, c, format, kind, api, skip, d, h)
+				if h != "" && cs.Observed == -2 {
+					continue
+				}
+				res.Cases = append(res.Cases, cs)
 			}
-			switch {
-			case len(writes) == 0:
-				cs.Observed, cs.Bad = -2, "no record was written"
-			default:
-				got, ok := c14Decode(format, writes[0])
-				cs.Got, cs.Observed = got, -1
-				for k, s := range known {
-					if got == c14Rendered(format, s) {
-						cs.Observed = k
-						break
-					}
-				}
-				switch {
-				case !ok:
-					cs.Bad = "the record carries no decodable caller"
-				case got != cs.Want:
-					cs.Bad = fmt.Sprintf("caller is %s:%d %s, the call statement %d frame(s) above the issuing statement is %s:%d %s",
-						got.File, got.Line, got.Func, skip, cs.Want.File, cs.Want.Line, cs.Want.Func)
-				case len(writes) > 1:
-					cs.Bad = fmt.Sprintf("%d records for one call", len(writes))
-				}
-				if cs.Bad != "" {
-					cs.Raw = string(writes[0])
-				}
-			}
-			if strings.HasPrefix(c.Name, "Verbose") && cs.Observed == -2 {
-				cs.Bad = "" // empty bodies in a default build: nothing to attribute
-			}
-			res.Cases = append(res.Cases, cs)
 		}
 		if c.Recv == "bridge" {
 			e.SetLevel(slog.AlwaysLevel)
 		}
 	}
+}
+
+// an error value that carries the stack of the place it was created at (this line)
+var c14StackErr = errorsv3.New("c14 stack-carrying error")
+
+// c14Observe issues one call through d wrappers and decodes the caller of the record
+func c14Observe(res *c14Result, x *c14x, cal [][]c14site, c c14call, format, kind, api string, skip, d int, hist string) c14Case {
+	events, x.u0 = nil, c14site{}
+	c14drive(d, x, c.F)
+	cs := c14Case{Build: res.Build, Recv: c.Recv, Name: c.Name, Via: c.Via, Format: format, Kind: kind, API: api, Skip: skip, Depth: d, History: hist}
+	// the frames the harness knows: 0 = the issuing statement, 1..d the wrappers, d+1 the driver
+	known := append([]c14site{x.u0}, cal[d][1:]...)
+	cs.Want = c14Rendered(format, known[skip])
+	var writes [][]byte
+	for _, ev := range events {
+		if ev.Kind == "write" {
+			writes = append(writes, ev.Payload)
+		}
+	}
+	switch {
+	case len(writes) == 0:
+		cs.Observed, cs.Bad = -2, "no record was written"
+	default:
+		got, ok := c14Decode(format, writes[0])
+		cs.Got, cs.Observed = got, -1
+		for k, s := range known {
+			if got == c14Rendered(format, s) {
+				cs.Observed = k
+				break
+			}
+		}
+		switch {
+		case !ok:
+			cs.Bad = "the record carries no decodable caller"
+		case got != cs.Want:
+			cs.Bad = fmt.Sprintf("caller is %s:%d %s, the call statement %d frame(s) above the issuing statement is %s:%d %s",
+				got.File, got.Line, got.Func, skip, cs.Want.File, cs.Want.Line, cs.Want.Func)
+		case len(writes) > 1:
+			cs.Bad = fmt.Sprintf("%d records for one call", len(writes))
+		}
+		if cs.Bad != "" {
+			cs.Raw = string(writes[0])
+		}
+	}
+	if strings.HasPrefix(c.Name, "Verbose") && cs.Observed == -2 {
+		cs.Bad = "" // empty bodies in a default build: nothing to attribute
+	}
+	return cs
 }
 
 var c14Formats = []string{"json", "logfmt", "color"}
@@ -327,7 +365,7 @@ func c14Grid(build, tier string, only *c14Case) *c14Result {
 	res.Inlined = c14Inlined
 	for _, kind := range c14Kinds {
 		for _, format := range c14Formats {
-			for _, api := range []string{"none", "SetSkip", "WithSkip"} {
+			for _, api := range []string{"none", "SetSkip", "WithSkip", "WithSkipSiblings"} {
 				for skip := 0; skip <= c14MaxDepth; skip++ {
 					if api == "none" && skip > 0 {
 						continue
@@ -425,7 +463,7 @@ func c14Register(r *Run, results []*c14Result) {
 	for _, res := range results {
 		for _, cs := range res.Cases {
 			term := fmt.Sprintf("Case %s %s %s %s %s", cStr(cs.Recv), cStr(cs.Name), cZ(int64(cs.Skip)), cZ(int64(cs.Depth+1)), cZ(int64(cs.Observed)))
-			canon := fmt.Sprintf("%s.%s|%s|%d|%s|%s", cs.Recv, cs.Name, cs.Format, cs.Skip, cs.Kind, cs.Build)
+			canon := fmt.Sprintf("%s.%s|%s|%d|%s|%s|%s", cs.Recv, cs.Name, cs.Format, cs.Skip, cs.Kind, cs.Build, cs.History)
 			r.AddCase(term, cs, cs.Skip > 0 || cs.Recv != "Entry", canon)
 			r.Dist["build="+cs.Build]++
 			r.Dist["format="+cs.Format]++
@@ -454,15 +492,22 @@ func c14Register(r *Run, results []*c14Result) {
 			key += "/skip" // attribution is right without a skip count, wrong only with one
 		}
 		for _, cs := range f.cases {
-			r.Fail(key, fmt.Sprintf("%s.%s (%s call) on a %s logger, %s format, skip %d by %s under %d wrapper(s), %s build: %s",
-				cs.Recv, cs.Name, cs.Via, cs.Kind, cs.Format, cs.Skip, cs.API, cs.Depth, cs.Build, cs.Bad), cs)
+			hist := ""
+			switch cs.History {
+			case "error-attr":
+				hist = ", second record of the statement, carrying an error value with its own stack"
+			case "after-error-attr":
+				hist = ", third record of the statement, after one that carried an error value with its own stack"
+			}
+			r.Fail(key, fmt.Sprintf("%s.%s (%s call) on a %s logger, %s format, skip %d by %s under %d wrapper(s), %s build%s: %s",
+				cs.Recv, cs.Name, cs.Via, cs.Kind, cs.Format, cs.Skip, cs.API, cs.Depth, cs.Build, hist, cs.Bad), cs)
 		}
 	}
 }
 
 func runC14(r *Run) {
 	c14Header(r)
-	r.Rule = "finite grid, fully enumerated: every public entry point called directly (Entry methods through a static *Entry receiver and through the slog.Logger interface, package-level functions, log/slog adapter Info/Debug/Warn/Error/Log, std log bridge Println/Printf/Print) x 3 formats x skip 0..4 given by SetSkip and by WithSkip (plus no skip call) under a wrapper chain of matching depth (thorough: every depth skip..4) x {root, child, default logger} x {normal build, -gcflags=all=-l}; non-trivial = skip > 0 or not an Entry method; distinct by (entry point, format, skip, logger kind, build)"
+	r.Rule = "finite grid, fully enumerated: every public entry point called directly (Entry methods through a static *Entry receiver and through the slog.Logger interface, package-level functions, log/slog adapter Info/Debug/Warn/Error/Log, std log bridge Println/Printf/Print) x 3 formats x skip 0..4 given by SetSkip, by WithSkip and by WithSkip on a parent that hands out a logger for every depth 0..4 (plus no skip call), every statement executed three times (plain attribute; an errors.v3 error value carrying its own stack; plain again) under a wrapper chain of matching depth (thorough: every depth skip..4) x {root, child, default logger} x {normal build, -gcflags=all=-l}; non-trivial = skip > 0 or not an Entry method; distinct by (entry point, format, skip, logger kind, build, position in the statement's history)"
 	inl := c14Grid("inline", r.Tier, nil)
 	noinl := c14RunNoinline(r, nil)
 	// the positions of the wrappers' call statements must not depend on the build
